@@ -135,6 +135,18 @@ def check(ctx, rep):
     rep.rule("R06j", "gopher:// URLs for entries on another server are gopher://host:port/<type><selector> (RFC 4266): the URL protocols then point at "
              "the same selector as the Gopher menu line does", floor=1)
     rep.rule("R06i", "= R15g: handlers build the entry list without looking at the protocol that asks", floor=1)
+    rep.rule("R06k", "= R14a over the renderers: what a protocol writes for an entry depends on the entry and the request alone - no module- or "
+             "class-level memo of rendered text (one request form would decide what the others show)", floor=1)
+    from ..effects import Effects as _Eff6
+    from .c14 import shared_state_obligations as _sso6
+    render_funcs = set()
+    for P_ in ctx.protocol_classes():
+        for c_ in prog.mro(P_):
+            render_funcs.update(m_ for m_ in c_.methods.values() if m_.name.startswith(("render", "writedir", "getrenderstr", "getimgtag", "get")) and m_.name != "gethandler")
+    n_before_ = len(rep.obligations)
+    _sso6(ctx, rep, "R06k", _Eff6(prog, ctx.resolver), render_funcs, sequential=True)
+    if len(rep.obligations) == n_before_:
+        rep.ok("R06k", f"no module- or class-level state is written while entries are rendered [{len(render_funcs)} functions]", "pygopherd/protocols", key="R06k|none")
     rep.rule("R06d", "menu MIME type mapped to the protocol's listing type; adjust function total", floor=4)
     pb = ctx.cls("protocols.base.BaseGopherProtocol")
     if pb is None:
